@@ -4,6 +4,9 @@ manifest stays valid while checks are added)."""
 import json, os
 ROOT = os.path.dirname(os.path.abspath(__file__))
 CHECKS = {
+ "C10": dict(level="exploration", technique="reference-model monitor over emitted FDT instances: independent reassembly, model set timeline from the operation log and Start/Stop events, expat + xmllint/XSD offline checker, id/Expires/supersession trace checks",
+     text="Thousands of random add/publish/remove/set_complete scripts with hostile metadata, all schemes, both publish modes, FDT cenc, start ids around the 2^20 wrap and durations from 2 s to 3 d run on the real sender over several expiry periods; every FDT instance on the wire is reassembled by the independent decoder, parsed with expat and validated against the repository XSD with xmllint, and compared field by field and listing by listing with what the sender was given; ids, Expires, id reuse, fdt_received identity and bounded supersession (50 ms polling) are judged on the trace. Held on the scripts run.",
+     note="trusted: expat, xmllint+XSD, independent decoder, model timeline; known findings KF-C10-attr-whitespace, KF-C10-supersession-*", ref="DESIGN.md §5 C10"),
  "C05": dict(level="exploration", technique="filesystem snapshot oracle (jail with canaries at every level, prefix-sibling, root litter scan) + strace syscall-trace oracle over a complete location grammar and random strings, three session endings",
      text="Every Content-Location of the grammar prefix{9} x up to d segments{10} (d=3 quick, 4 thorough; complete enumeration) and thousands of random strings is announced by a hand-built FDT and delivered through a real session to ObjectWriterFS with complete / MD5-error / interrupted endings; nothing outside the destination may be created, modified or deleted (snapshot of a jail three levels up + filesystem root scan), and in a strace-traced sample every mutating file syscall must target a path under the destination, successful or not. Held on the locations run.",
      note="trusted: snapshot code, strace; no symlinks planted; runs as root (absolute escapes are real, names are unique and removed)", ref="DESIGN.md §5 C05"),
